@@ -1657,6 +1657,15 @@ def _run_reactor(spec, ctx):
     expected = {}
     for o, d in options.items():
         expected[G.REACTOR_OPTIONS[o][0]] = (o, d)
+    # scalar derived from a multi_* list (undocumented fallback): tolerated; if written it must be the
+    # first list value with its unit
+    derived = {}
+    for mo, so in G.MULTI_SCALAR.items():
+        if mo in options and so not in options and options[mo]['v']:
+            dm = options[mo]
+            et = 'str' if dm['t'] == 'strlist_units' else dm['t'].replace('list:', '')
+            derived[G.REACTOR_OPTIONS[so][0]] = (so, {'t': et, 'v': dm['v'][0]})
+            ctx.cls('opt:derived_scalar')
     generic_paths = {}
     for sect, dd in spec['generic'].items():
         for k, v in dd.items():
@@ -1678,7 +1687,10 @@ def _run_reactor(spec, ctx):
     for path, v in generic_paths.items():
         ctx.check('Y6', leaves.get(path) == v, dict(base, entity='option', field='generic', what='value'),
                   got=repr(leaves.get(path)), want=v, path=path)
-    extra = sorted(set(leaves) - set(expected) - set(generic_paths))
+    for path, (o, d) in derived.items():
+        if path in leaves:
+            _value_ok(ctx, o, d, leaves[path], u, units_given)
+    extra = sorted(set(leaves) - set(expected) - set(generic_paths) - set(derived))
     ctx.check('Y6', not extra, dict(base, entity='option', field='extra_key', what='extra'), got=extra)
     # ---- phases block
     m = dict(base, entity='option', field='phases')
